@@ -349,7 +349,7 @@ func Spec() *core.Spec {
 		Rule: "exhaustive: every batch of length 0..3 (quick) / 0..4 (thorough) over per-item outcomes {success, typed error, plain error, panic (6 value kinds), unrouted operation, critical extension, built-in Discover Versions, critical extension on the built-in Discover Versions} " +
 			"x continuation option {unset, Continue, Stop, Undo} x {supported, unsupported} version x {matching, mismatching} batch count x with/without item ids, through BatchExecutor.HandleRequest with instrumented handlers; " +
 			"seeded random batches of up to 40 items; a sample sent through a real server connection so ids and counts cross the wire. Compared with a 30-line reference model (item count/order/echo, counts, version, success/failure, handler trace). " +
-			"distinct = distinct (batch description, path) combinations",
+			"all 31 supported-version sets x 11 request versions (inside, in gaps, outside); distinct = distinct (batch description, path) combinations",
 		Required: []string{"versions.supported", "versions.unsupported.in-a-gap", "batches.direct", "batches.wire", "rejected_requests"},
 		Families: []core.Family{
 			{Name: "exhaustive", Exhaustive: true, N: func(tier string) int {
